@@ -78,6 +78,7 @@ CHECKERS = {
     "wb": ("WbCfg", [
         ("checkWbShape", "shape", ["tower", "x_map_numerator", "x_map_denominator", "y_map_numerator", "y_map_denominator"]),
         ("checkWbIsoCurve", "iso_curve", ["tower", "iso"]),
+        ("checkWbIsoShape", "iso_shape", ["tower", "iso", "a", "b", "gx", "gy", "r", "cofactor", "cofactor_limbs", "cofactor_inv"]),
         ("checkWbImageOnCurve", "image_on_curve", ["tower", "a", "b", "iso", "x_map_numerator", "x_map_denominator",
                                                     "y_map_numerator", "y_map_denominator"]),
         ("checkWbImageOrder", "image_order", ["tower", "a", "b", "r", "iso", "x_map_numerator", "x_map_denominator",
@@ -88,6 +89,7 @@ CHECKERS = {
     "te": ("TeCfg", [
         ("checkTeShape", "shape", ["tower", "r", "a", "d", "gx", "gy", "cofactor", "cofactor_limbs", "cofactor_inv"]),
         ("checkTeNondegenerate", "nondegenerate", ["a", "d"]),
+        ("checkTeCofactorLimbs", "cofactor_limbs_wf", ["cofactor_limbs"]),
         ("checkTeGeneratorOnCurve", "generator_on_curve", ["tower", "a", "d", "gx", "gy"]),
         ("checkTeGeneratorOrder", "generator_order", ["tower", "r", "a", "d", "gx", "gy"]),
         ("checkTeCofactorInv", "cofactor_inv", ["r", "cofactor", "cofactor_inv"]),
@@ -96,6 +98,7 @@ CHECKERS = {
     ]),
     "elligator2": ("Elligator2Cfg", [
         ("checkElligatorZ", "z", ["tower", "z"]),
+        ("checkElligatorConstsWf", "consts_wf", ["tower", "one_over_coeff_b_square", "coeff_a_over_coeff_b"]),
         ("checkElligatorConsts", "consts", ["tower", "mont_a", "mont_b", "one_over_coeff_b_square", "coeff_a_over_coeff_b"]),
     ]),
     "bls12": ("Bls12Cfg", [
